@@ -645,7 +645,7 @@ func (o *Obs) setStatusText(code, msg, det string) {
 	o.CodeText = code
 	n, err := strconv.ParseUint(code, 10, 64)
 	if err != nil {
-		o.DetErr = "grpc-status is not a decimal number: " + strconv.Quote(code)
+		o.DetErr = "grpc-status is not a decimal number: " + strconv.QuoteToASCII(code)
 		o.Code = 1 << 62
 	} else {
 		o.Code = n
@@ -950,11 +950,18 @@ func clip(s string, n int) string {
 	return s
 }
 
+// ascii makes a text safe for one-line ASCII output (violation lines are cut
+// at a byte offset by the monitor runtime).
+func ascii(s string) string {
+	q := strconv.QuoteToASCII(s)
+	return q[1 : len(q)-1]
+}
+
 // panicViols turns server-side panics / wedges into violations; returns true
 // when the observation should not be judged further.
 func panicViols(c *Case, o *Obs, cls string) (vs []viol, stop bool) {
 	for _, p := range o.Panics {
-		vs = append(vs, viol{p.Key() + ":" + cls, fmt.Sprintf("%s: server panicked while answering (%s) at %s", c.Proto, clip(p.Value, 120), p.Frame)})
+		vs = append(vs, viol{p.Key() + ":" + cls, fmt.Sprintf("%s: server panicked while answering (%s) at %s", c.Proto, ascii(clip(p.Value, 120)), p.Frame)})
 	}
 	if o.Wedged {
 		if strings.Contains(o.Dump, "larking.io/larking") {
